@@ -45,7 +45,16 @@ func refEncodeBurn(version uint32, token, mintRecipient, amount32, sender []byte
 	return out
 }
 
-func producerLemma(idx int, p string, eventsMayFail bool) {
+func producerLemma(idx int, p string, eventsMayFail bool) { producerLemmaAfter(idx, p, eventsMayFail, -1) }
+
+// producerLemmaAfter: before >= 0 first lets a different keeper instance successfully execute
+// transaction `before` on an arbitrary other state in the same process.
+func producerLemmaAfter(idx int, p string, eventsMayFail bool, before int) {
+	if before >= 0 {
+		a := c18exec(before, "other_", "other_")
+		verifrt.Assume(a.ok)
+		verifrt.Cover("producer/other-instance-ran-first")
+	}
 	h := newH("")
 	c := producerCaps()
 	h.setupUserState(1, c)
@@ -210,6 +219,9 @@ func producerLemma(idx int, p string, eventsMayFail bool) {
 				b := refDecodeBurn(sent.Message)
 				verifrt.Assert("C05/deposit/body-amount", verifrt.IntEq(verifrt.IntFromBytes32(b.AmountBz), m.Amount))
 				verifrt.Assert("C05/deposit/one-debit-one-burn", verifrt.All(len(bank) == 1, len(burns) == 1))
+				// the next burn message gets a different outbound nonce (sums are taken over distinct nonces)
+				after, found := h.K.GetNextAvailableNonce(ctx)
+				verifrt.Assert("C05/deposit/nonce-not-reused", verifrt.All(found, after.Nonce == m.Nonce+1, after.Nonce != m.Nonce))
 				if len(bank) == 1 && len(burns) == 1 {
 					verifrt.Assert("C05/deposit/bank-args", verifrt.All(
 						bytes.Equal(bank[0].Sender, m.From.Bytes),
